@@ -58,6 +58,8 @@ func runAcceptSeq(seq []string) (trace string, wall time.Duration, err error) {
 	}
 	l := rec.NewListener()
 	l.CloseDelay = 20 * time.Millisecond
+	// an in-memory listener has no network address: Serve needs Accept and Close of its listener, nothing else
+	l.NilAddr = len(seq)%3 == 1
 	var conns []*rec.Conn
 	var clients []*rec.MemConn
 	shutdownDone := make(chan error, 4)
